@@ -232,7 +232,12 @@ def compare_case(R, p, dtype, cls, args, deep=False):
         crit = loc.get("v")
         if crit is None and loc.get("robust_gcv") is not None:
             crit = np.asarray(loc["robust_gcv"], dtype=float)[:, 0]
-        deg = crit is None or not np.all(np.isfinite(crit)) or (np.asarray(crit).size > 1 and np.min(np.abs(np.diff(np.sort(np.asarray(crit, dtype=float))))) <= 1e-9 * np.max(np.abs(crit))) or np.min(np.abs(crit)) < 1e-12
+        noise_level = False
+        if loc.get("fits") is not None and loc.get("pens") is not None:
+            scale = max(1.0, float(np.max(np.abs(np.asarray(args[0], dtype=float)[np.asarray(args[0], dtype=float) != float(args[1])]))) if np.any(np.asarray(args[0], dtype=float) != float(args[1])) else 1.0)
+            with np.errstate(over="ignore", invalid="ignore"):
+                noise_level = bool(np.any(np.exp(np.asarray(loc["fits"], dtype=float)) < (1e-9 * scale) ** 2) or np.any(np.exp(np.asarray(loc["pens"], dtype=float)) < (1e-9 * scale) ** 2))
+        deg = noise_level or crit is None or not np.all(np.isfinite(crit)) or (np.asarray(crit).size > 1 and np.min(np.abs(np.diff(np.sort(np.asarray(crit, dtype=float))))) <= 1e-9 * np.max(np.abs(crit))) or np.min(np.abs(crit)) < 1e-12
         lc, li = [x for x in cflat if x.ndim == 0 or x.size == 1][-1], [x for x in iflat if x.ndim == 0 or x.size == 1][-1]
         if abs(float(lc) - float(li)) <= 1e-12 * abs(float(lc)):
             R.count("lambda_last_ulp")
